@@ -40,9 +40,25 @@ type backend struct {
 type clientWrapper struct{ *unistore.RPCClient }
 
 func (c *clientWrapper) SendRequestAsync(ctx context.Context, addr string, req *tikvrpc.Request, cb async.Callback[*tikvrpc.Response]) {
-	go func() { cb.Schedule(c.RPCClient.SendRequest(ctx, addr, req, tikv.ReadTimeoutShort)) }()
+	go func() { cb.Schedule(c.SendRequest(ctx, addr, req, tikv.ReadTimeoutShort)) }()
 }
 func (c *clientWrapper) SetEventListener(listener tikv.ClientEventListener) {}
+
+// SendRequest: unistore makes a pessimistic lock request that meets a lock wait inside the store on a
+// real-time timer (for ever with "always wait"). A goroutine blocked there is invisible to the
+// explorer and can outlive the execution (teardown then hangs). The store is therefore always asked
+// not to wait (it answers "locked" at once); the client then waits on its side (resolver + virtual
+// back-off), which is the path its lock-wait setting selects anyway once the store gives up.
+func (c *clientWrapper) SendRequest(ctx context.Context, addr string, req *tikvrpc.Request, timeout time.Duration) (*tikvrpc.Response, error) {
+	if req.Type == tikvrpc.CmdPessimisticLock {
+		q := *req.PessimisticLock()
+		q.WaitTimeout = -1 // kv.LockNoWait
+		r := *req
+		r.Req = &q
+		return c.RPCClient.SendRequest(ctx, addr, &r, timeout)
+	}
+	return c.RPCClient.SendRequest(ctx, addr, req, timeout)
+}
 
 // unistore keeps its timestamp counter in an unexported package variable and takes
 // max(wall clock, counter). The scripted oracle's virtual time starts in the year 2100, so after
